@@ -19,7 +19,7 @@ import (
 
 type c16Item struct {
 	Idx  int    `json:"i"` // which original datagram
-	Kind string `json:"k"` // orig, flip, epoch, seq, wrongkey, garbage
+	Kind string `json:"k"` // orig, flip, ver, short, len, epoch, seq, wrongkey, garbage
 	Pos  int    `json:"p,omitempty"`
 	Mask byte   `json:"m,omitempty"`
 	// Join (receiver reading with Read only): this item's record travels in one datagram with the next
@@ -42,6 +42,11 @@ type c16Case struct {
 	// ListenWindow != 0: the server is created with a listener configuration whose ReplayWindow is this
 	// value (-1: unset) and whose GetConfigForClient returns the configuration with Window, then in force
 	ListenWindow int `json:"listenwindow,omitempty"`
+	// Resumed: the connection resumes a session of an earlier one (on the client the read keys are then
+	// switched on through the ChangeCipherSpec that shares the server's first datagram)
+	Resumed bool `json:"resumed,omitempty"`
+	// RecvClient: the server sends, the client (with the configured window) receives
+	RecvClient bool `json:"recvclient,omitempty"`
 	Sched []c16Item `json:"sched"`
 }
 
@@ -51,10 +56,16 @@ func c16Payload(i int) []byte { return []byte(fmt.Sprintf("payload-%04d", i)) }
 // application got, in order.
 func c16Deliver(c c16Case, withForgeries bool) (got [][]byte, seqs []uint64, firstErr error, sig, msg string) {
 	ccfg, scfg := vfBaseConfigs(c.Suite, false)
-	scfg.ReplayWindow = c.Window
-	cc := vfNewCapCache(4)
-	ccfg.SessionCache, scfg.SessionCache = cc, vfNewCapCache(4)
-	if c.ListenWindow != 0 {
+	si, ri := 0, 1 // sender, receiver
+	if c.RecvClient {
+		si, ri = 1, 0
+		ccfg.ReplayWindow = c.Window
+	} else {
+		scfg.ReplayWindow = c.Window
+	}
+	cc, scc := vfNewCapCache(4), vfNewCapCache(4)
+	ccfg.SessionCache, scfg.SessionCache = cc, scc
+	if c.ListenWindow != 0 && !c.RecvClient {
 		l, inner := scfg.Clone(), scfg.Clone()
 		l.ReplayWindow = c.ListenWindow
 		if l.ReplayWindow == -1 {
@@ -69,7 +80,7 @@ func c16Deliver(c c16Case, withForgeries bool) (got [][]byte, seqs []uint64, fir
 	opt := vfPairOpt{
 		Prepare: func(s *vfDSim, _, _ *Conn) { sim = s },
 		Hook: func(from, nth int, data []byte) []vfDelivery {
-			if capture && from == 0 {
+			if capture && from == si {
 				stash = append(stash, data)
 				return nil
 			}
@@ -77,7 +88,7 @@ func c16Deliver(c c16Case, withForgeries bool) (got [][]byte, seqs []uint64, fir
 		},
 	}
 	var rp *vfPair
-	opt.CliAct = func(cn *Conn) error {
+	sendAct := func(cn *Conn) error {
 		if c.StartSeq > 0 {
 			cn.out.Lock()
 			cn.writeSeq = uint48(c.StartSeq)
@@ -92,10 +103,14 @@ func c16Deliver(c c16Case, withForgeries bool) (got [][]byte, seqs []uint64, fir
 		capture = false
 		// wrong-key forgeries: sealed with the reference under the *server's* write key
 		keys, kerr := refKeysOfTapsD(sim, cc)
+		if kerr != nil {
+			// the server may be sending before the client has stored the session
+			keys, kerr = refKeysOfTapsD(sim, scc)
+		}
 		var carry []byte
 		defer func() {
 			if carry != nil {
-				sim.inject(1, sim.ends[0].addr, carry, 0)
+				sim.inject(ri, sim.ends[si].addr, carry, 0)
 			}
 		}()
 		for _, it := range c.Sched {
@@ -110,6 +125,24 @@ func c16Deliver(c c16Case, withForgeries bool) (got [][]byte, seqs []uint64, fir
 			switch it.Kind {
 			case "flip":
 				d[13+it.Pos%(len(d)-13)] ^= it.Mask | 1
+			case "ver":
+				// the version field of the record header rewritten in flight
+				if it.Pos%2 == 0 {
+					d[1], d[2] = 0xfe, 0xfd
+				} else {
+					d[1+it.Pos%4/2] ^= it.Mask | 1
+				}
+			case "short":
+				// a datagram shorter than a record header
+				d = d[:it.Pos%13]
+			case "len":
+				// the length field announces more than the datagram holds (or more than any record may)
+				if it.Pos%2 == 0 {
+					d[11], d[12] = 0xff, 0xff
+				} else {
+					n := len(d) - 13 + 1 + it.Pos%200
+					d[11], d[12] = byte(n>>8), byte(n)
+				}
 			case "epoch":
 				d[3], d[4] = byte(it.Pos>>8), byte(it.Pos)
 				if d[3] == 0 && d[4] == 1 {
@@ -119,8 +152,11 @@ func c16Deliver(c c16Case, withForgeries bool) (got [][]byte, seqs []uint64, fir
 				d[10] ^= it.Mask | 1
 				d[9] ^= byte(it.Pos)
 			case "wrongkey":
+				if kerr != nil {
+					continue
+				}
 				if kerr == nil {
-					key, iv, mac := keys.dir(false)
+					key, iv, mac := keys.dir(ri == 0) // the receiver's own write keys
 					seq := []byte{0, 1, 0, 0, 0, 0, byte(it.Pos >> 8), byte(it.Pos)}
 					explicit := append(append([]byte(nil), seq...), make([]byte, 8)...)
 					frag := refSeal(keys.GCM, key, iv, mac, seq, 23, [2]byte{1, 1}, explicit, []byte("forged-payload"))
@@ -129,17 +165,19 @@ func c16Deliver(c c16Case, withForgeries bool) (got [][]byte, seqs []uint64, fir
 			case "garbage":
 				d = append([]byte{23, 1, 1, 0, 1, 0, 0, 0, 0, 9, byte(it.Pos), 0, 40}, bytes.Repeat([]byte{byte(it.Mask)}, 40)...)
 			}
-			if it.Join && !c.ReadFrom && !c.Mixed && len(carry)+len(d) < 1000 {
+			// a record whose length field is forged (or a datagram cut short) hides whatever follows it in the
+			// same datagram from any receiver: those travel alone
+			if it.Join && it.Kind != "len" && it.Kind != "short" && !c.ReadFrom && !c.Mixed && len(carry)+len(d) < 1000 {
 				carry = append(carry, d...)
 				continue
 			}
 			d = append(carry, d...)
 			carry = nil
-			sim.inject(1, sim.ends[0].addr, d, 0)
+			sim.inject(ri, sim.ends[si].addr, d, 0)
 		}
 		return nil
 	}
-	opt.SrvAct = func(cn *Conn) error {
+	recvAct := func(cn *Conn) error {
 		buf := make([]byte, 200)
 		timeout := func(err error) bool {
 			te, ok := err.(interface{ Timeout() bool })
@@ -201,9 +239,22 @@ func c16Deliver(c c16Case, withForgeries bool) (got [][]byte, seqs []uint64, fir
 		}
 		return nil
 	}
+	if c.RecvClient {
+		opt.CliAct, opt.SrvAct = recvAct, sendAct
+	} else {
+		opt.CliAct, opt.SrvAct = sendAct, recvAct
+	}
+	if c.Resumed {
+		if r0 := vfRunPair(ccfg, scfg, vfPairOpt{}); r0.CErr != nil || r0.SErr != nil {
+			return nil, nil, nil, "honest-failed", fmt.Sprintf("priming handshake: %v / %v", r0.CErr, r0.SErr)
+		}
+	}
 	rp = vfRunPair(ccfg, scfg, opt)
 	if rp.CPanic != "" || rp.SPanic != "" {
 		return nil, nil, nil, "panic", rp.CPanic + rp.SPanic
+	}
+	if c.Resumed && (!rp.CS.DidResume || !rp.SS.DidResume) && rp.CErr == nil && rp.SErr == nil {
+		return nil, nil, nil, "honest-failed", "the second connection did not resume"
 	}
 	if rp.CErr != nil || rp.SErr != nil {
 		return nil, nil, nil, "honest-failed", fmt.Sprintf("%v / %v", rp.CErr, rp.SErr)
@@ -300,7 +351,7 @@ func c16Check(c c16Case) (sig, msg string, nontrivial bool) {
 }
 
 func TestVF_C16_Conn(t *testing.T) {
-	rec := vfRec("C16", "C16b-connection", "established connection; the sender emits N unique payloads which the harness holds back and then delivers according to a generated schedule of originals, duplicates, late replays, reorderings, body bit flips, altered epoch / sequence headers, records sealed under the wrong direction's key and garbage records, one record per datagram or (receiver reading with Read) two in one datagram; receiver through ReadFrom, through Read, and mixed (short Read, ReadFrom, rest through Read); window sizes 0 (default), 32, 64, 128 and the odd values 1, 8, 31, 33, 65, -5; both cipher modes; the sender's sequence number starting at 1, 250, 65530, 2^32-5, 2^32+7, 2^40 or 2^48-300; oracle: delivered subset of sent, at most once, forgeries never delivered, fresh genuine records within the guaranteed window delivered, same deliveries with and without the forgeries; non-trivial = schedule with a duplicate, a replay or a forgery; distinct = the case")
+	rec := vfRec("C16", "C16b-connection", "established connection (full or resumed handshake; the client or the server receiving); the sender emits N unique payloads which the harness holds back and then delivers according to a generated schedule of originals, duplicates, late replays, reorderings, body bit flips, altered version / epoch / sequence / length header fields, datagrams shorter than a record header, records sealed under the wrong direction's key and garbage records, one record per datagram or (receiver reading with Read) two in one datagram; receiver through ReadFrom, through Read, and mixed (short Read, ReadFrom, rest through Read); window sizes 0 (default), 32, 64, 128 and the odd values 1, 8, 31, 33, 65, -5; both cipher modes; the sender's sequence number starting at 1, 250, 65530, 2^32-5, 2^32+7, 2^40 or 2^48-300; oracle: delivered subset of sent, at most once, forgeries never delivered, fresh genuine records within the guaranteed window delivered, same deliveries with and without the forgeries; non-trivial = schedule with a duplicate, a replay or a forgery; distinct = the case")
 	vfRapid(t, rec, "schedules", vfN(300, 6000), func(t *rapid.T) {
 		c := c16Case{Suite: rapid.SampledFrom([]uint16{ECC_SM4_GCM_SM3, ECC_SM4_CBC_SM3}).Draw(t, "suite"), Window: rapid.SampledFrom([]int{0, 32, 64, 128, 1, 8, 31, 33, 65, -5}).Draw(t, "window"),
 			N: rapid.SampledFrom([]int{3, 8, 40, 100}).Draw(t, "n"), ReadFrom: rapid.Bool().Draw(t, "readfrom"), Mixed: rapid.IntRange(0, 3).Draw(t, "mixed") == 0,
@@ -308,10 +359,12 @@ func TestVF_C16_Conn(t *testing.T) {
 		if rapid.IntRange(0, 3).Draw(t, "listen") == 0 {
 			c.ListenWindow = rapid.SampledFrom([]int{-1, 32, 64, 128, 8}).Draw(t, "listenwindow")
 		}
+		c.Resumed = rapid.IntRange(0, 2).Draw(t, "resumed") == 0
+		c.RecvClient = rapid.IntRange(0, 2).Draw(t, "recvclient") == 0
 		n := rapid.IntRange(1, 2*c.N+4).Draw(t, "len")
 		cursor := 0
 		for i := 0; i < n; i++ {
-			it := c16Item{Kind: rapid.SampledFrom([]string{"orig", "orig", "orig", "orig", "flip", "epoch", "seq", "wrongkey", "garbage"}).Draw(t, "kind")}
+			it := c16Item{Kind: rapid.SampledFrom([]string{"orig", "orig", "orig", "orig", "orig", "flip", "epoch", "seq", "ver", "ver", "short", "len", "wrongkey", "garbage"}).Draw(t, "kind")}
 			switch rapid.IntRange(0, 4).Draw(t, "which") {
 			case 0, 1: // next in order
 				it.Idx = cursor
